@@ -82,3 +82,7 @@ func (i *InMemCollector) VerifC01DropQueueLen(w int) int {
 func (i *InMemCollector) VerifC01QueueLen(w int) int {
 	return len(i.workers[w].incoming) + len(i.workers[w].fromPeer)
 }
+
+// VerifC01HealthAt exports the instant (unix ns on the collector's clock) at which worker w last ran
+// its send-ticker branch.
+func (i *InMemCollector) VerifC01HealthAt(w int) int64 { return i.workers[w].healthCheckInAt.Load() }
